@@ -524,6 +524,8 @@ def gen_reference(rng: random.Random, prog):
     """A valid request with >= 1 input over the original pool (the request whose bytes are compared)."""
     for _ in range(20):
         req = lf.gen_request(rng, prog, allow_bad=False)
+        if not req["outputs"]:
+            continue
         if "multi" in prog and all(o != prog["multi"] for _, o in req["outputs"]):
             req["outputs"][0][1] = prog["multi"]  # the value that needs several operator domains
         e = lf.expected(prog, req)
@@ -555,8 +557,8 @@ def gen_reuse_family(rng: random.Random, n):
             elif nd["k"] == "arg":
                 for _ in range(20):
                     nd["ty"] = lf.gen_type(rng, "e" in nd["ty"])  # keep tensor arguments tensors (Cast nodes refer to their dims)
-                    if not lf.role_typed(nd["ty"]):
-                        break
+                    if not lf.role_typed(nd["ty"]) and nd["ty"].get("e") not in lf.SIZE_LIFT:
+                        break  # (a Cast of the argument may exist: no string / bfloat16 / complex here)
             elif nd["k"] == "const":
                 nd["v"] = float(rng.randrange(-3, 4))
         progs.append(p)
